@@ -5,7 +5,7 @@ From Coq Require Import String.
 From Coq Require Import List Arith Lia Bool ZArith Permutation.
 From NV.Lib Require Import RingMat SlotAlg NdIndex Harness.
 From NV.C01 Require Import Model Exec Proofs.
-From NV.C02 Require Import Model Proofs Proofs2 Proofs3.
+From NV.C02 Require Import Model Proofs Proofs2 Proofs3 Proofs4.
 Import ListNotations.
 
 (* (1) Python slice semantics: list(range(n))[start:stop:step] is the arithmetic
@@ -147,6 +147,21 @@ Proof.
 Qed.
 Print Assumptions no_value_invented_or_duplicated.
 
+(* (9) ImageList.from_image: EVERY element k (not only the first) is a well-formed image
+   whose values sit, injectively, at indices of the original with the same value and the same
+   named world coordinates - all of them without dropout, all but the dropped coordinate with
+   dropout (tracks_sub: named point of the element ++ rest is a permutation of the original's).
+   The element's coordmap is derived from THAT element's slice (model: drop_out_dim (icmap it)).
+   fst dpair = None: no input axis of the slice is matched to the dropped output (otherwise
+   drop_io_dim removes a data axis too and the Image constructor refuses the element). *)
+Theorem image_list_item_tracks :
+  forall img in_ax out_ax dropout k dpair r,
+  wf_image img -> fst dpair = None ->
+  image_list_item img in_ax out_ax dropout k dpair = IOk r ->
+  wf_image r /\ exists phi, tracks_sub r img phi (fun s => s).
+Proof. exact image_list_item_tracks_lemma. Qed.
+Print Assumptions image_list_item_tracks.
+
 (* ------------------------------------------------------------------ non-vacuity *)
 Open Scope string_scope.
 Definition demo_cmap : zaff :=
@@ -191,3 +206,11 @@ Example demo_negative_axis_nonsquare :
                               {| cnames := ["x"; "y"; "z"]; cname := ""; cdt := 1 |}
                               [[1; 0; 0]; [0; 1; 0]; [0; 0; 0]; [0; 0; 1]]%Z) (AInt (-1)%Z) [] = IOk 1%Z.
 Proof. reflexivity. Qed.
+
+(* list over k of the sheared demo image, dropping t: element 2 keeps x, y, z of ITS slice *)
+Example demo_image_list_element :
+  exists r, image_list_item demo (Some 2) (Some 3) true 2 (None, Some 3) = IOk r /\
+            ishape r = [2; 3] /\ out_names r = ["x"; "y"; "z"] /\
+            world r [1; 2] = Ok [1; 5; 7]%Z /\ world demo [1; 2; 2] = Ok [1; 5; 7; 7]%Z /\
+            value r [1; 2] = value demo [1; 2; 2].
+Proof. eexists. split; [vm_compute; reflexivity|]. vm_compute. repeat split; reflexivity. Qed.
